@@ -3,6 +3,7 @@
 
 pub mod c05;
 pub mod c08;
+pub mod c14;
 pub mod c15;
 pub mod chooser;
 pub mod io;
@@ -20,6 +21,7 @@ pub fn scenario_for(pid: &str) -> Option<&'static dyn Scenario> {
     Some(match pid {
         "C05" => &c05::C05,
         "C08" => &c08::C08,
+        "C14" => &c14::C14,
         "C15" => &c15::C15,
         _ => return None,
     })
@@ -91,7 +93,7 @@ pub fn dispatch() -> Option<i32> {
                 for i in 0..sample {
                     let idx = i * (res.runs.max(1) / sample.max(1)).max(1);
                     let s = runner::run_seed(seed, sc.id(), idx);
-                    let ctx = runner::RunCtx { tier, index: idx, render: false, verbose: false };
+                    let ctx = runner::RunCtx { tier, index: idx, render: false, verbose: false, step_cap: None };
                     let a = sc.run(s, chooser::Chooser::from_seed(s), &ctx);
                     let b = sc.run(s, chooser::Chooser::from_trace(s, a.trace.iter().map(|t| t.1).collect()), &ctx);
                     det_checked += 1;
@@ -118,7 +120,7 @@ pub fn dispatch() -> Option<i32> {
             for i in 0..3u64.min(res.runs) {
                 let idx = i * 7 + i;
                 let s = runner::run_seed(seed, sc.id(), idx);
-                let ctx = runner::RunCtx { tier, index: idx, render: true, verbose: false };
+                let ctx = runner::RunCtx { tier, index: idx, render: true, verbose: false, step_cap: None };
                 let out = sc.run(s, chooser::Chooser::from_seed(s), &ctx);
                 let lines = out.render.unwrap_or_default();
                 let shown: Vec<String> = if lines.len() > 40 {
@@ -230,7 +232,7 @@ pub fn dispatch() -> Option<i32> {
 /// debugging aid: `vpncloud-sim verif one --property C08 --seed S --index I` renders a single run
 pub fn debug_one(sc: &'static dyn Scenario, tier: Tier, batch_seed: u64, index: u64) {
     let s = runner::run_seed(batch_seed, sc.id(), index);
-    let ctx = runner::RunCtx { tier, index, render: true, verbose: true };
+    let ctx = runner::RunCtx { tier, index, render: true, verbose: true, step_cap: None };
     let out = sc.run(s, chooser::Chooser::from_seed(s), &ctx);
     for l in out.render.unwrap_or_default() {
         println!("{}", l);
